@@ -310,3 +310,5 @@ func (c *Check) finish() int {
 	}
 	return 0
 }
+
+func describeAny(v interface{}) string { return fmt.Sprint(v) }
